@@ -15,6 +15,27 @@ ENGINES = {
 }
 
 
+def run_tlaps(workdir):
+    """C12, thorough tier: the TLA+ proof system checks, for voter sets of ANY finite size, the two facts the
+    quorum arithmetic exists for (two majorities intersect; a joint quorum meets every majority of either half).
+    A failed proof is a defect of the machinery (exit 2), never a verdict about the code."""
+    import re
+    d = os.path.join(workdir, "proofs")
+    os.makedirs(d)
+    shutil.copy(os.path.join(VERIF, "spec", "Quorum.tla"), d)
+    shutil.copy(os.path.join(VERIF, "spec", "proofs", "QuorumProofs.tla"), d)
+    try:
+        p = subprocess.run(["tlapm", "--threads", str(max(2, vlib.NCPU // 2)), "QuorumProofs.tla"], cwd=d, stdout=subprocess.PIPE,
+                           stderr=subprocess.STDOUT, text=True, timeout=600)
+    except (subprocess.TimeoutExpired, FileNotFoundError) as e:
+        raise MachineryError("tlapm did not finish: %s" % e)
+    m = re.search(r"All (\d+) obligations proved", p.stdout)
+    if not m:
+        raise MachineryError("TLAPS could not check spec/proofs/QuorumProofs.tla: " + p.stdout[-1500:])
+    return {"module": "spec/proofs/QuorumProofs.tla", "theorems": ["MajoritiesIntersect", "JointMeetsEitherHalf"],
+            "obligations_proved": int(m.group(1)), "scope": "voter sets of any finite size (unbounded)"}
+
+
 def run(pid, tier, seed):
     t0 = time.time()
     eng = ENGINES[pid]
@@ -51,6 +72,9 @@ def run(pid, tier, seed):
             json.dump(s["bad"], open(os.path.join(rd, "cases.json"), "w"), indent=1)
             replay = rd
             print("VIOLATION property=%s replay=%s mismatching_cases=%d first=%s" % (pid, rd, s["mismatches"], json.dumps(s["bad"][0])[:600]))
+        proofs = None
+        if pid == "C12" and tier == "thorough":
+            proofs = run_tlaps(workdir)
         ev = {
             "property_id": pid, "tier": tier, "seed": seed, "level": "model_checking",
             "coverage": {
@@ -66,6 +90,8 @@ def run(pid, tier, seed):
             "wall_s": round(time.time() - t0, 2),
             "violations": s["mismatches"],
         }
+        if proofs:
+            ev["coverage"]["tlaps"] = proofs
         vlib.write_evidence(pid, ev)
         return 1 if s["mismatches"] else 0
     finally:
